@@ -12,6 +12,7 @@ import (
 	"sort"
 	"strings"
 	"sync"
+	"sync/atomic"
 	"testing"
 	"testing/synctest"
 	"time"
@@ -32,7 +33,8 @@ func TestSim(t *testing.T) {
 	simnode.InitLogging()
 	simcore.Main(t, "C13", []simcore.Scenario{
 		{Name: "no-sampler", Weight: 3, Run: runNoSampler},
-		{Name: "sampler", Weight: 4, Run: runSampler},
+		{Name: "sampler", Weight: 4, Run: func(e *simcore.Env, tp *simcore.Tape) { runSampler(e, tp, false) }},
+		{Name: "schedules", Weight: 3, Run: func(e *simcore.Env, tp *simcore.Tape) { runSampler(e, tp, true) }},
 	})
 }
 
@@ -703,8 +705,38 @@ func explain(acked []int64, removed map[int64]bool, drops []*dropCall) (ok bool,
 	return false, fmt.Sprintf("%d drop answers exist, %d of them could have been honoured without leaving a fragment outside the merge, spans %v are not covered by any of them", len(drops), usable, un)
 }
 
-func runSampler(e *simcore.Env, tp *simcore.Tape) {
+// gateSites are the places of banyand/trace/merger.go (gates inserted by tools/gaterw) where the "schedules"
+// scenario may hold an engine goroutine: the dispatcher between taking its snapshot and looking at the pinned
+// parts, between selecting and pinning; a lane worker before it starts; a merge before its core pass (before
+// any sampler verdict) and between its re-validation and the hand-over to the introducer.
+var gateSites = []string{
+	"merger.go:dispatchAllMergesUpTo#1",
+	"merger.go:getPartsToMergeUpTo#1",
+	"merger.go:mergeLaneWorker#1",
+	"merger.go:mergePartsThenIntroduceAttempt#1",
+	"merger.go:mergePartsThenIntroduceAttempt#2",
+}
+
+// runSampler is scenario (b) "sampler" and, with gated, scenario (c) "schedules": the same histories and
+// oracles, but merge goroutines are held at gate sites and released in tape-chosen order, with writes in between.
+func runSampler(e *simcore.Env, tp *simcore.Tape, gated bool) {
 	synctest.Test(e.T, func(*testing.T) {
+		var gatesOn atomic.Bool
+		armed := map[string]bool{}
+		if gated {
+			simcore.SetActor("main")
+			defer simcore.ClearActor()
+			for _, site := range gateSites {
+				if tp.Bool(2, 3) {
+					armed[site] = true
+				}
+			}
+			if len(armed) == 0 {
+				armed[gateSites[1]], armed[gateSites[2]] = true, true
+			}
+			gatesOn.Store(true)
+			simcore.EnableGates(func(_, site string) bool { return gatesOn.Load() && armed[site] })
+		}
 		s := wl.GenTraceSchema(tp, wl.TraceSchemaOpts{})
 		repo := simmeta.New()
 		s.Install(repo)
@@ -726,6 +758,10 @@ func runSampler(e *simcore.Env, tp *simcore.Tape) {
 			return
 		}
 		defer func() {
+			gatesOn.Store(false)
+			for _, p := range simcore.ParkedList() {
+				simcore.Release(p)
+			}
 			n.Stop()
 			// a sampler that overran its deadline is still sleeping on the fake clock (abandoned by the engine,
 			// as designed); the clock stops when the scenario goroutine returns, so let it finish first
@@ -748,6 +784,9 @@ func runSampler(e *simcore.Env, tp *simcore.Tape) {
 		nSamplers := 1
 		if tp.Bool(1, 3) {
 			nSamplers = 2
+		}
+		if gated && tp.Bool(1, 3) {
+			nSamplers = 0 // plain merges under adversarial schedules
 		}
 		var proj sdk.Projection
 		switch tp.Weighted(3, 2, 1) {
@@ -790,6 +829,7 @@ func runSampler(e *simcore.Env, tp *simcore.Tape) {
 			trace.VerifEnableFinalize(s.Group, fg.Nanoseconds(), 1, int64(time.Minute), 8)
 			defer trace.VerifDisableFinalize(s.Group)
 		}
+		e.Event("armed gates %v", simcore.SortedKeys(armed))
 		e.Event("schema shards=%d tags=%v durRule=%v tsRule=%v flags=%v grace=%s finalize=%v samplers=%d proj=%+v traces=%d batches=%d spread=%dms",
 			s.Shards, s.Tags, s.DurRuleTags, s.TsRule, flags, grace, finalize, nSamplers, proj, len(plan.TraceIDs), len(plan.Batches), spread)
 		e.Event("verdict plan: %s", strings.Join(planNote, " "))
@@ -888,12 +928,49 @@ func runSampler(e *simcore.Env, tp *simcore.Tape) {
 			}
 		}
 
+		// settle releases held goroutines: per round all those waiting at one tape-chosen site (value 0 = the
+		// first site in lexical order: dispatcher before workers before merge attempts, the engine's usual order).
+		settle := func(rounds int) {
+			if !gated {
+				return
+			}
+			for i := 0; i < rounds; i++ {
+				synctest.Wait()
+				parked := simcore.ParkedList()
+				if len(parked) == 0 {
+					return
+				}
+				seenSite := map[string]bool{}
+				for _, p := range parked {
+					seenSite[p.Site] = true
+				}
+				sites := simcore.SortedKeys(seenSite)
+				site := sites[tp.Choose(len(sites))]
+				k := 0
+				for _, p := range parked {
+					if p.Site == site {
+						simcore.Release(p)
+						k++
+					}
+				}
+				e.Probe("reach.held_goroutine_released")
+				if site != sites[0] {
+					e.Probe("reach.released_out_of_usual_order")
+				}
+				e.Event("release goroutines held at %s", site)
+				e.Note("released %d at %s, %d held in total", k, site, len(parked))
+			}
+			synctest.Wait()
+		}
 		for bi, b := range plan.Batches {
 			if e.Failed() {
 				break
 			}
 			time.Sleep(time.Duration(tp.Range(1, 3000)) * time.Microsecond)
 			synctest.Wait()
+			if gated && len(simcore.ParkedList()) > 0 {
+				e.Probe("reach.write_while_merge_goroutine_held")
+			}
 			l.mu.Lock()
 			for _, sp := range b {
 				if l.inflight[sp.TraceID] == nil {
@@ -917,17 +994,20 @@ func runSampler(e *simcore.Env, tp *simcore.Tape) {
 			l.mu.Unlock()
 			e.Event("batch %d: wrote %d spans", bi, len(b))
 			h.sample = append(h.sample, fmt.Sprintf("write %d", len(b)))
+			settle(tp.Choose(4))
 			if tp.Bool(1, 4) {
 				synctest.Wait()
 				check(fmt.Sprintf("after batch %d", bi))
 			}
 			for tp.Bool(2, 5) && !e.Failed() {
 				h.advance(advances[tp.Choose(len(advances))])
+				settle(tp.Choose(6))
 				check("after advance")
 			}
 		}
 		for i, k := 0, tp.Range(1, 5); i < k && !e.Failed(); i++ {
 			h.advance(advances[tp.Choose(len(advances))])
+			settle(40)
 			check("final")
 		}
 		h.reachProbes()
@@ -941,11 +1021,14 @@ func runSampler(e *simcore.Env, tp *simcore.Tape) {
 			e.Probe("reach.sampler_called")
 			e.Nontrivial()
 		}
+		if gated && h.obs.merges+h.obs.rewrites > 0 {
+			e.Nontrivial()
+		}
 		if nd > 0 {
 			e.Probe("reach.sampler_answered_drop")
 		}
 		e.Note("sampler calls=%d drop answers=%d void drop answers=%d dropped whole=%d", calls, nd, voidDrops, len(droppedWhole))
-		e.SetSample(map[string]any{"scenario": "sampler", "flags": flags, "grace": grace.String(), "finalize": finalize, "samplers": nSamplers, "projection": fmt.Sprintf("%+v", proj),
+		e.SetSample(map[string]any{"scenario": map[bool]string{false: "sampler", true: "schedules"}[gated], "armed_gates": simcore.SortedKeys(armed), "flags": flags, "grace": grace.String(), "finalize": finalize, "samplers": nSamplers, "projection": fmt.Sprintf("%+v", proj),
 			"traces": len(plan.TraceIDs), "batches": len(plan.Batches), "sampler_calls": calls, "drop_answers": nd, "traces_dropped_whole": len(droppedWhole),
 			"flushes_seen": h.obs.flushes, "merges_seen": h.obs.merges, "ops": h.sample})
 	})
